@@ -3,6 +3,7 @@
 package verifhook
 
 import (
+	"fmt"
 	"bytes"
 	"encoding/binary"
 	"math/rand"
@@ -34,6 +35,7 @@ func genAdmission(r *rand.Rand, tier string) Case {
 		}
 	}
 	fast := r.Intn(2) == 0
+	Mark(r, "start loop")
 	v, err := startLoop(l, content, image, func(c *torrent.Config) {
 		c.UnchokedPeers = int(pick(r, 0, 1, 3))
 		c.OptimisticUnchokedPeers = 0
@@ -43,6 +45,7 @@ func genAdmission(r *rand.Rand, tier string) Case {
 		return Case{In: []int64{0}, Obs: []int64{-710}}
 	}
 	defer v.Close()
+	Mark(r, "loop started: "+v.Snapshot().Status)
 	pe, err := v.AddPeer(fast, true, peersource.Incoming)
 	if err != nil {
 		return Case{In: []int64{0}, Obs: []int64{-711}}
@@ -59,9 +62,9 @@ func genAdmission(r *rand.Rand, tier string) Case {
 	var obs []int64
 	closed := false
 	for k := 0; k < nreq; k++ {
-		if r.Intn(3) == 0 {
+		if r.Intn(3) == 0 && !closed {
 			_ = pe.Send(2, nil) // interested: the unchoker may unchoke us
-			v.PumpEx(time.Second, torrent.ClsMsg)
+			v.PumpEx(10*time.Second, torrent.ClsMsg)
 			v.BarrierPumping()
 			pe.Take()
 		}
@@ -121,9 +124,19 @@ func genAdmission(r *rand.Rand, tier string) Case {
 		binary.BigEndian.PutUint32(payload[0:], uint32(idx))
 		binary.BigEndian.PutUint32(payload[4:], uint32(begin))
 		binary.BigEndian.PutUint32(payload[8:], uint32(length))
-		_ = pe.Send(6, payload)
-		v.PumpEx(time.Second, torrent.ClsMsg)
+		Mark(r, fmt.Sprintf("request %d: idx=%d begin=%d len=%d closed=%v peClosed=%v", k, idx, begin, length, closed, pe.Pe.Closed))
+		serr := pe.Send(6, payload)
+		if serr != nil {
+			Mark(r, "send error: "+serr.Error())
+		}
+		wait := 10 * time.Second
+		if length > 16384 {
+			wait = 300 * time.Millisecond // the reader refuses it: no message reaches the loop
+		}
+		v.PumpEx(wait, torrent.ClsMsg)
+		Mark(r, "request pumped")
 		handled := v.BarrierPumping()
+		Mark(r, "barrier done")
 		frames, cl := pe.Take()
 		// every served block is followed by one upload notification to the loop: take those still on their way
 		for _, f := range frames {
@@ -131,7 +144,7 @@ func genAdmission(r *rand.Rand, tier string) Case {
 				if handled > 0 {
 					handled--
 				} else {
-					v.PumpEx(time.Second, torrent.ClsMsg)
+					v.PumpEx(10*time.Second, torrent.ClsMsg)
 				}
 			}
 		}
